@@ -42,6 +42,14 @@ def table (t : List (F64.Bits × F64.Bits)) (x : Fl) : Fl :=
   | some p => ⟨p.2⟩
   | none => Fl.nan
 
+/-- aliasing / statelessness verdicts reported on the case line: `kept` = the caller's slices (windows
+of larger arrays with sentinels around) are bit-identical and in the original order after ALL calls
+of the case; `again` = the same Sample queried again in another order answered identically -/
+def keptAgain (l : Line) : String :=
+  let k := if l.getD "kept" == "1" then "kept" else "modified"
+  let a := if l.getD "again" == "1" then "same" else "differs"
+  s!"in={k} again={a}"
+
 def allOk (l : List String) : String :=
   match l.find? (· != "ok") with
   | some s => s
@@ -153,7 +161,7 @@ def descr (l : Line) : IO Unit := do
     else if narrow ∧ (tmean != "ok" ∨ tvar != "ok" ∨ tgeo != "ok") ∧ devOK ∧ geoOK then " kf=N12b"
     else if narrowGeo ∧ tmean == "ok" ∧ tvar == "ok" ∧ tgeo != "ok" ∧ geoOK then " kf=N12b"
     else ""
-  IO.println s!"spec {id} mean={tmean} var={tvar} sd={tsd} geo={tgeo} bounds={tbounds} pct={tpct} pmono={tmono} pbound={tbound} iqr={tiqr}{kfTag}"
+  IO.println s!"spec {id} mean={tmean} var={tvar} sd={tsd} geo={tgeo} bounds={tbounds} pct={tpct} pmono={tmono} pbound={tbound} iqr={tiqr} {keptAgain l}{kfTag}"
 
 /-! ### weighted samples (specification only: exact definitions in ℚ) -/
 
@@ -230,7 +238,7 @@ def wdescr (l : Line) : IO Unit := do
     | some v => if F64.isFinite g ∧ toRat g == v then "ok" else s!"bad(p~{showRat p},go={showB g},want~{showRat v})")
   let tun := if l.getD "wvar" == "unimpl" ∧ l.getD "wsd" == "unimpl" then "ok"
     else s!"bad(Variance={l.getD "wvar"},StdDev={l.getD "wsd"},want=refusal)"
-  IO.println s!"spec {id} mean={tmean} geo={tgeo} bounds={tb} pct={tp} unimpl={tun}"
+  IO.println s!"spec {id} mean={tmean} geo={tgeo} bounds={tb} pct={tp} unimpl={tun} {keptAgain l}"
 
 /-! ### t-tests -/
 
@@ -413,11 +421,11 @@ def ttest (l : Line) : IO Unit := do
   IO.println s!"obs {id} welch={kW} pooled={kP} paired={kR} one={kO}"
   let tails := allOk [pTail gW alt, pTail gP alt, pTail gR alt, pTail gO alt]
   if gR == "-" then
-    IO.println s!"spec {id} ptail={tails}"
+    IO.println s!"spec {id} ptail={tails} {keptAgain l}"
   else
     let a := moments (xsB.map toRat)
     let b := moments (ysB.map toRat)
-    IO.println s!"spec {id} welch={sJudge gW (specWelch a b)} pooled={sJudge gP (specPooled a b)} paired={sJudge gR (specPaired xsB ysB mu)} one={sJudge gO (specOne a mu)} ptail={tails}"
+    IO.println s!"spec {id} welch={sJudge gW (specWelch a b)} pooled={sJudge gP (specPooled a b)} paired={sJudge gR (specPaired xsB ysB mu)} one={sJudge gO (specOne a mu)} ptail={tails} {keptAgain l}"
 
 def tolSym : Rat := mkRat 1 (10 ^ 12)
 
